@@ -429,7 +429,13 @@ def _bytes_int_codecs(I, f, selfobj, args, kwargs):
                 continue
             if code.islower():
                 if contains_sym(chunk):
-                    raise Unsupported("struct signed code with symbolic value")
+                    # two's complement: the sign bit is decided (both outcomes explored)
+                    u = V.be_int(chunk[::-1] if order == "little" else chunk)
+                    if I.truth(V.compare(">=", u, 1 << (8 * sz - 1))):
+                        out.append(V.arith("-", u, 1 << (8 * sz)))
+                    else:
+                        out.append(u)
+                    continue
                 out.append(int.from_bytes(bytes(chunk), order, signed=True))
                 continue
             out.append(V.be_int(chunk[::-1] if order == "little" else chunk))
@@ -457,7 +463,19 @@ def _bytes_int_codecs(I, f, selfobj, args, kwargs):
         buf = rest[0]
         off = (rest[1] if len(rest) > 1 else kwargs.get("offset", 0)) if name == "unpack_from" else 0
         if isinstance(buf, (SBuf, SMBuf, SZeros)):
-            raise Unsupported("struct.unpack of a symbolic-length buffer")
+            # a buffer of symbolic length: the length requirement is decided (both outcomes explored), the bytes are
+            # read by index
+            n = I.ctx.resolve(buf.n)
+            if is_sym(off):
+                raise Unsupported("struct.unpack_from at a symbolic offset")
+            if name == "unpack":
+                if not I.truth(n == total):
+                    raise _struct.error("unpack requires a buffer of %d bytes" % total)
+            elif off < 0 or not I.truth(n >= off + total):
+                raise _struct.error("unpack_from requires a buffer of at least %d bytes" % (off + total))
+            fr = _frame(I)
+            view = buf if isinstance(buf, SBuf) else (SBuf(buf.arr, 0, buf.n) if isinstance(buf, SMBuf) else None)
+            return unpack([fr.buf_index(view, off + i) if view is not None else 0 for i in range(total)])
         cells = list(buf)
         if name == "unpack" and len(cells) != total:
             raise _struct.error("unpack requires a buffer of %d bytes" % total)
